@@ -8,100 +8,94 @@
 From Cicada Require Import Base.Chars Model.Vars Model.VarsSpec Proofs.VarsProofs.
 Local Open Scope N_scope.
 
-(** [fx] says whether the code contains the proposed repair of read (notes/C09-fix-6.patch); the
-    tree as it is does not.  The theorems hold for both settings. *)
-Definition fx_tree : fixes := mkfx false.
+(** States of the repaired shell: no name twice in the environment, and no stale shell-local IFS
+    behind an exported IFS (export removes the local binding).  A fresh shell is such a state. *)
+Definition wf_state (c : st) : Prop :=
+  NoDup (map fst (envp c)) /\ (aget (envp c) s_IFS <> None -> aget (locals c) s_IFS = None).
 
 (** The abstraction function relates every state whose environment has no duplicate names. *)
 Theorem C09_abs : forall c, NoDup (map fst (envp c)) -> R c (abs c).
 Proof. exact R_abs. Qed.
 
-(** Every operation outside the known classes commutes with the abstraction and produces
-    the specified observation, for every file system (this now includes NAME=v prog with NAME
-    exported, and cd without argument when $HOME does not exist). *)
-Theorem C09_step : forall fx w c a o, R c a -> wf_op o = true -> known fx a o = None ->
-  R (fst (step fx w c (render o))) (fst (spec_step fx w a o)) /\
-  obs_ok (snd (spec_step fx w a o)) (snd (step fx w c (render o))).
+(** Every operation commutes with the abstraction and produces the specified observation, for
+    every file system, and keeps the invariant. *)
+Theorem C09_step : forall w c a o, R c a -> shadow_free a -> wf_op o = true ->
+  R (fst (step w c (render o))) (fst (spec_step w a o)) /\
+  obs_ok (snd (spec_step w a o)) (snd (step w c (render o))).
 Proof. exact sim_step. Qed.
 
-(** Full statement: for every history of well-formed operations, what expansions and children
-    observe is what the abstract store prescribes. *)
-Definition C09_full : Prop := forall w c ops,
-  NoDup (map fst (envp c)) -> forallb wf_op ops = true ->
-  Forall2 obs_ok (snd (spec_hist fx_tree w (abs c) ops)) (snd (run_hist fx_tree w c (map render ops))).
+Theorem C09_step_invariant : forall w a o, shadow_free a -> shadow_free (fst (spec_step w a o)).
+Proof. exact step_shadow_free. Qed.
 
-(** Unbounded partial statement: histories of any length that never enter a known class. *)
-Theorem C09_partial : forall fx w c ops,
-  NoDup (map fst (envp c)) -> forallb wf_op ops = true -> known_hist fx w (abs c) ops = false ->
-  Forall2 obs_ok (snd (spec_hist fx w (abs c) ops)) (snd (run_hist fx w c (map render ops))) /\
-  R (fst (run_hist fx w c (map render ops))) (fst (spec_hist fx w (abs c) ops)).
-Proof. exact partial_from_abs. Qed.
+(** FULL STATEMENT, no excluded class: for every file system, every such state and every history
+    (of any length) of well-formed operations -- assignment, prefixed program, export, unset,
+    read, cd in all its forms, reference -- what expansions and started programs observe (every
+    environ entry, cwd, statuses) is what the abstract store name -> (value, exported?) x cwd x
+    oldpwd prescribes, and the final states are related. *)
+Theorem C09_full : forall w c ops,
+  wf_state c -> forallb wf_op ops = true ->
+  Forall2 obs_ok (snd (spec_hist w (abs c) ops)) (snd (run_hist w c (map render ops))) /\
+  R (fst (run_hist w c (map render ops))) (fst (spec_hist w (abs c) ops)).
+Proof. intros w c ops [H1 H2]. now apply full_from_abs. Qed.
 
 (** $PWD is the working directory for as long as no operation names PWD. *)
-Theorem C09_pwd : forall fx w c ops,
-  NoDup (map fst (envp c)) -> forallb wf_op ops = true -> known_hist fx w (abs c) ops = false ->
+Theorem C09_pwd : forall w c ops,
+  wf_state c -> forallb wf_op ops = true ->
   aget (envp c) s_PWD = Some (cwd c) -> forallb (fun o => negb (touches s_PWD o)) ops = true ->
-  let c' := fst (run_hist fx w c (map render ops)) in expand_lookup c' s_PWD = Some (cwd c').
-Proof. exact pwd_follows_cwd. Qed.
+  let c' := fst (run_hist w c (map render ops)) in expand_lookup c' s_PWD = Some (cwd c').
+Proof. intros w c ops [H1 H2]. now apply pwd_follows_cwd. Qed.
 
-(** With the proposed repair of read the full statement holds, with the POSIX reading of the
-    fields (runs of blanks separate under the default IFS, the last name gets the rest of the line
-    verbatim), from every state in which an exported IFS has no shell-local IFS behind it, e.g. a
-    fresh shell. *)
-Theorem C09_full_after_repairs : forall w c ops,
-  NoDup (map fst (envp c)) -> (aget (envp c) s_IFS <> None -> aget (locals c) s_IFS = None) ->
-  forallb wf_op ops = true ->
-  Forall2 obs_ok (snd (spec_hist fx_all w (abs c) ops)) (snd (run_hist fx_all w c (map render ops))).
-Proof. exact full_after_repairs. Qed.
-
-(** "the remainder in the last": in the POSIX reading the last name receives a contiguous piece
-    of the input line (nothing rebuilt), for every IFS and every number of names. *)
+(** "the remainder in the last": the last name of read receives a contiguous piece of the input
+    line (nothing rebuilt), for every IFS and every number of names. *)
 Theorem C09_read_remainder_verbatim : forall dflt seps k x,
   exists p q, x = p ++ last (cut_runs dflt seps k (Some x)) [] ++ q.
 Proof. exact cut_runs_last_infix. Qed.
 
-Check C09_step : forall fx w c a o, R c a -> wf_op o = true -> known fx a o = None ->
-  R (fst (step fx w c (render o))) (fst (spec_step fx w a o)) /\
-  obs_ok (snd (spec_step fx w a o)) (snd (step fx w c (render o))).
-Check C09_partial : forall fx w c ops,
-  NoDup (map fst (envp c)) -> forallb wf_op ops = true -> known_hist fx w (abs c) ops = false ->
-  Forall2 obs_ok (snd (spec_hist fx w (abs c) ops)) (snd (run_hist fx w c (map render ops))) /\
-  R (fst (run_hist fx w c (map render ops))) (fst (spec_hist fx w (abs c) ops)).
+Check C09_step : forall w c a o, R c a -> shadow_free a -> wf_op o = true ->
+  R (fst (step w c (render o))) (fst (spec_step w a o)) /\
+  obs_ok (snd (spec_step w a o)) (snd (step w c (render o))).
+Check C09_full : forall w c ops,
+  wf_state c -> forallb wf_op ops = true ->
+  Forall2 obs_ok (snd (spec_hist w (abs c) ops)) (snd (run_hist w c (map render ops))) /\
+  R (fst (run_hist w c (map render ops))) (fst (spec_hist w (abs c) ops)).
 
-(* ---- refutations: one concrete history per known class *)
+(* ---- the five repaired defects as regression examples: model = specification on the old witnesses *)
 Definition w_none : world := mkworld (fun _ => false) (fun _ => None) (fun _ => false) (fun v => v).
 Definition w_all : world := mkworld (fun _ => true) (fun p => Some p) (fun _ => true) (fun v => v).
 Definition c_root : st := mkst [] [] [c_slash] [].
 Definition nA : str := [65]. Definition nB : str := [66].
 Definition hp : str := [47; 104; 112].
+Definition outs (w : world) (ops : list op) : list outcome := snd (run_hist w c_root (map render ops)).
 
-(** IFS=':' read A B <<< 'x:y:z'; $B  -- B is rebuilt with a blank *)
-Definition ops_rejoin : list op :=
-  [Read [mkasg s_IFS [58] QSq] [nA; nB] [120; 58; 121; 58; 122]; Ref nB].
-Theorem C09_refuted_read_rejoined :
-  forallb wf_op ops_rejoin = true /\
-  ~ Forall2 obs_ok (snd (spec_hist fx_tree w_none (abs c_root) ops_rejoin)) (snd (run_hist fx_tree w_none c_root (map render ops_rejoin))).
-Proof.
-  split; [reflexivity|]. intro H.
-  pose proof (Forall2_nth_ok _ _ _ H 1%nat (SStatus true) OPanic ltac:(vm_compute; auto)) as H1.
-  vm_compute in H1. discriminate.
-Qed.
+(** 729671e  export A=1; A=2 /hp : the child finds exactly A=2 *)
+Example C09_regress_prefix_over_exported :
+  outs w_none [Export [mkasg nA [49] QBare]; Prefixed [mkasg nA [50] QBare] hp []]
+  = [OStatus true; OChild [hp] [(nA, [50])] [47]].
+Proof. vm_compute. reflexivity. Qed.
 
-Theorem C09_refuted : ~ C09_full.
-Proof.
-  intro H. apply (proj2 C09_refuted_read_rejoined). apply (H w_none c_root ops_rejoin (NoDup_nil _) eq_refl).
-Qed.
+(** 217a8a1  IFS=':'; export IFS=','; read A B <<< 'x:y,z'; $A $B : split at the comma *)
+Example C09_regress_ifs_shadowed :
+  outs w_none [Assign [mkasg s_IFS [58] QSq]; Export [mkasg s_IFS [44] QSq];
+               Read [] [nA; nB] [120; 58; 121; 44; 122]; Ref nA; Ref nB]
+  = [OStatus true; OStatus true; OStatus true; OVal (Some [120; 58; 121]); OVal (Some [122])].
+Proof. vm_compute. reflexivity. Qed.
 
-(** The same history after the repair: B is y:z; and blanks: read A B <<< 'x  y   z ' gives A=x, B=y   z *)
-Definition ops_blanks : list op := [Read [] [nA; nB] [120; 32; 32; 121; 32; 32; 32; 122; 32]; Ref nA; Ref nB].
-Example C09_read_repaired :
-  snd (run_hist fx_all w_none c_root (map render ops_rejoin)) = [OStatus true; OVal (Some [121; 58; 122])] /\
-  snd (run_hist fx_all w_none c_root (map render ops_blanks)) =
-    [OStatus true; OVal (Some [120]); OVal (Some [121; 32; 32; 32; 122])].
+(** 6cce60d  IFS=':' read A B <<< 'x:y:z'; $B : y:z ;  read A B <<< 'x  y   z ' : A=x, B=y   z *)
+Example C09_regress_read_rejoined :
+  outs w_none [Read [mkasg s_IFS [58] QSq] [nA; nB] [120; 58; 121; 58; 122]; Ref nB]
+  = [OStatus true; OVal (Some [121; 58; 122])] /\
+  outs w_none [Read [] [nA; nB] [120; 32; 32; 121; 32; 32; 32; 122; 32]; Ref nA; Ref nB]
+  = [OStatus true; OVal (Some [120]); OVal (Some [121; 32; 32; 32; 122])].
+Proof. vm_compute. split; reflexivity. Qed.
+
+(** aace31b  export HOME=/x (missing); cd : status 1, no panic.   5a6a746  cd without HOME : status 1 *)
+Example C09_regress_cd_home :
+  outs w_none [Export [mkasg s_HOME [47; 120] QBare]; Cd None] = [OStatus true; OStatus false] /\
+  outs w_all [Cd None] = [OStatus false].
 Proof. vm_compute. split; reflexivity. Qed.
 
 (** Non-vacuity: a history through every kind of operation that meets the hypotheses of
-    C09_partial and C09_pwd, with the observations it produces.
+    C09_full and C09_pwd, with the observations it produces.
       B='x y'; export A="p:q"; A=2 /hp; A=3; read B C <<< 'u v w'; unset A; cd /d; cd -; export HOME=/nope; cd;
       $B $C $PWD $A
     (A=2 /hp with A exported: the child finds exactly A=2; cd with a missing HOME: status 1.) *)
@@ -115,20 +109,23 @@ Definition ops_ok : list op :=
    Export [mkasg s_HOME [47; 110; 111; 112; 101] QBare]; Cd None;
    Ref nB; Ref [67]; Ref s_PWD; Ref nA].
 Example C09_nonvacuous :
-  forallb wf_op ops_ok = true /\ known_hist fx_tree w_d (abs c_start) ops_ok = false /\
+  forallb wf_op ops_ok = true /\ wf_state c_start /\
   aget (envp c_start) s_PWD = Some (cwd c_start) /\
   forallb (fun o => negb (touches s_PWD o)) ops_ok = true /\
-  (let outs := snd (run_hist fx_tree w_d c_start (map render ops_ok)) in
+  (let outs := snd (run_hist w_d c_start (map render ops_ok)) in
    nth 2 outs OPanic = OChild [hp] [(s_PWD, [47]); (nA, [50])] [47] /\
    skipn 6 outs = [OStatus true; OStatus true; OStatus true; OStatus false; OVal (Some [117]);
                    OVal (Some [118; 32; 119]); OVal (Some [47]); OVal None]).
-Proof. vm_compute. repeat split. Qed.
+Proof.
+  split; [reflexivity|]. split.
+  { split; [|intro H; exfalso; apply H; reflexivity].
+    constructor; [intros []|constructor]. }
+  vm_compute. repeat split.
+Qed.
 
 Print Assumptions C09_abs.
 Print Assumptions C09_step.
-Print Assumptions C09_partial.
+Print Assumptions C09_step_invariant.
+Print Assumptions C09_full.
 Print Assumptions C09_pwd.
-Print Assumptions C09_full_after_repairs.
 Print Assumptions C09_read_remainder_verbatim.
-Print Assumptions C09_refuted.
-Print Assumptions C09_refuted_read_rejoined.
